@@ -3205,9 +3205,12 @@ set_directory_record_rr(unsigned char *bp, int dr_len,
 				length = 5 + sllen;
 				if (bp != NULL) {
 					/*
-					 * Mark flg as CONTINUE component.
+					 * Mark flg as CONTINUE component
+					 * (none has been started when the
+					 * record is cut at a '/').
 					 */
-					*cf |= 0x01;
+					if (cf != NULL)
+						*cf |= 0x01;
 					/*
 					 *               len  ver  flg
 					 *    +----+----+----+----+----+-
